@@ -49,6 +49,9 @@ type World struct {
 	Pfx    map[string]string
 	nextID int
 	R      *rand.Rand
+	// Override forces the truth of some atoms (used to fingerprint a known finding: "what would be reported if
+	// atom k behaved the way the listed defect makes it behave")
+	Override map[int]bool
 }
 
 func (w *World) AtomProp(i int) int { return w.Base + i }
@@ -62,6 +65,9 @@ func (w *World) newNode(class string) *Node {
 func (w *World) Eval(f F, node string) bool {
 	switch v := f.(type) {
 	case FAtom:
+		if forced, ok := w.Override[v.I]; ok {
+			return forced
+		}
 		return w.Truth[node][v.I]
 	case FQuant:
 		q := w.Quants[v.Q]
